@@ -123,6 +123,32 @@ Theorem C18_gso_disable_retry_transparent : forall c bufs oracle1 oracle2,
 Proof. exact gso_disable_retry_transparent. Qed.
 Print Assumptions C18_gso_disable_retry_transparent.
 
+(* Finding candidate (HEAD): if the kernel has already sent the messages in
+   front of the refused UDP_SEGMENT message when it reports EIO, the resend of
+   the WHOLE batch puts their datagrams on the wire a second time: REFUTED
+   "first attempt + resend = the batch" for the code as it is. *)
+Theorem C18_gso_disable_retry_duplicates_refuted :
+  exists c bufs o1 o2, wf_cfg c /\ Forall (fun b => len (b_data b) <= b_cap b) bufs /\
+    let '(t1, t2, e2) := send_with_gso_disable c bufs o1 o2 in
+    e2 = false /\ flat_map kernel_send (t1 ++ t2) <> map b_data bufs /\
+    flat_map kernel_send (t1 ++ t2) = [[1]; [1]; [2;2]; [3;3]].
+Proof. exact gso_disable_retry_duplicates_refuted. Qed.
+Print Assumptions C18_gso_disable_retry_duplicates_refuted.
+
+(* With notes/C18-fix3.patch (the resend skips the datagrams of the messages
+   already written): for every behaviour of the first attempt, first attempt +
+   resend put exactly the batch on the wire, each datagram once, in order. *)
+Theorem C18_gso_disable_retry_fixed_exact : forall c bufs oracle1 oracle2,
+  len (c_src c) + conn_gsoControlSize <= c_oobcap c ->
+  Forall (fun b => len (b_data b) <= b_cap b) bufs ->
+  Forall (fun r => match r with WOk k => (0 < k)%nat | WErr => False end) oracle2 ->
+  (length bufs <= length oracle2)%nat ->
+  let '(t1, t2, e2) := send_with_gso_disable_fixed (flat_map kernel_send) c bufs oracle1 oracle2 in
+  e2 = false /\ flat_map kernel_send t1 ++ flat_map kernel_send t2 = map b_data bufs /\
+  Forall (fun m => m_gso m = []) t2.
+Proof. exact gso_disable_retry_fixed_exact. Qed.
+Print Assumptions C18_gso_disable_retry_fixed_exact.
+
 (* Glue, Send's pooled destination address (udpAddrPool), repaired order
    `ua.IP = ua.IP[:16]; copy(ua.IP, as16[:])` (notes/C18-fix-dualstack.patch):
    for every history of IPv4/IPv6 Sends drawing the same pooled object, whatever
